@@ -88,3 +88,27 @@ def register(claim):
           note=NOTE_COMMON + " Text identity is demanded on the 'fields' section (loading from a path adds "
                'creation_metadata.tddafile). Known finding D27 (Infinity tokens).',
           ref='DESIGN.md section 5, C09')
+    claim('C04',
+          technique='TLA+ case analysis (TextCompare.tla): declarative SpecPass vs transcription ImplPass of check_strings / '
+                    'wrong_content / check_patterns / permutation check, TLC exhaustive over text pairs x 256 option '
+                    'combinations; the case table is replayed on the real check_strings and on the assertion entry points',
+          text='TLC enumerates every pair of texts of <= 2 lines over a 12-line pool and <= 3 lines over a 3-line pool (thorough: '
+               '<= 3 lines over 7) x {lstrip, rstrip, ignore_substrings, remove_lines} x 4 pattern lists x max_permutation_cases 0..3 '
+               '(6.7M cases), checks transcription = specification plus IdenticalPasses / UnexcusedFails, and writes the expected '
+               'verdicts as bit rows; the harness runs 2.2M (quick) real check_strings calls on three token alphabets (ASCII, '
+               'non-ASCII incl. Arabic-Indic digits, multi-character markers) and a sample through assertStringCorrect / '
+               'assertTextFileCorrect / assertTextFilesCorrect with final-newline and preprocess variants.',
+          note=NOTE_COMMON + ' Lines are sequences over a 7-token alphabet; trailing empty lines and permutation/pattern options on '
+               'blank-padded lines under stripping are compared with the transcription only.',
+          ref='DESIGN.md section 5, C04')
+    claim('C15',
+          technique='TLA+ transcription of reconstruct() as a two-cursor machine with postcondition RebuildOK, and BinSpec, '
+                    'checked by TLC (MC_TextArtefacts); every failing case replayed on real assertions with a fresh tmp_dir and a '
+                    'canary directory; each run is a trace line judged by Trace_TextArtefacts',
+          text='For every pair of texts of <= 3+2 lines over a 6-line pool x {lstrip, ignore_substrings, remove_lines, pattern} TLC '
+               'checks that the rebuilt pair differs exactly on the unexcused lines and emits those lines; the harness runs the '
+               'assertions for real, parses the suggested commands out of the failure message, stats the named files, compares '
+               'the raw actual file with the actual and the post-processed pair with the expected differing lines, snapshots the '
+               'temporary and canary directories, and checks offset and lengths for all byte-string pairs of <= 3 bytes.',
+          note=NOTE_COMMON + ' The final newline of the raw actual file is not demanded.',
+          ref='DESIGN.md section 5, C15')
